@@ -34,6 +34,8 @@ def gen_cases(rnd, n):
             q['assigns'].append([tgt, rhs])
         if rnd.random() < 0.5:
             q['where'] = qgen.gen_bool_expr(rnd, acols, 1, use_join, bcols)
+        if rnd.random() < 0.15:
+            q['top'] = rnd.randint(0, 3)        # `UPDATE … LIMIT n` is accepted and means nothing: UPDATE emits every record
         case = {'q': q, 'A': A, 'B': B}
         if A and rnd.random() < 0.2:
             # a table is a list of row OBJECTS: the same row object several times (and, for a self-join, the table itself as join table);
